@@ -6,6 +6,12 @@ LEVEL_NOTE = ("Trusted base: CPython 3.12 (/venv/bin/python), eval/tokenize/frac
               "oracles under /verif/vf, and that sfc_models imports from the /repo working tree (asserted at "
               "start, recorded in evidence).")
 CLAIMS = {
+ 'C05': ("closure / canonical-name / placeholder scan of the emitted text against the object graph with an independent splitter; placeholder-embedding driver; value equality of emitted and sector-local forms",
+         "Held on K observed models: every left-hand side canonical and unique, every right-hand-side name defined, no placeholder token in any code part, embedded names resolve to the variable they were requested for (sector, same-sector and model-level equations), emitted equations equal their local forms under valuations.", "3/C05"),
+ 'C08': ("differential execution over random linear extensions of the declaration order (all 720 orders of SIM in the thorough tier), exact comparison of the re-solved systems",
+         "Held on K observed builds: permuted declaration orders give the same variable set and the same exact solution; a permuted build that fails is a violation. Country order is fixed (documented dependence).", "3/C08"),
+ 'C18': ("structural-name-map differential: renamed vs default codes, stand-alone vs embedded economies and book builders, exact comparison of the re-solved systems",
+         "Held on K observed builds: renamed and embedded economies have the mapped variable set and equal exact solutions; the PC builder's embedding failure is a listed known finding.", "3/C18"),
  'C01': ("offline conservation checker on the exact rational re-solution of the emitted equations: per-currency sum dF + NET == 0 and per-sector ledgers == spec-declared flows; in-situ AddCashFlow wrapper",
          "Held on K observed models: random topologies (1-3 zones, federations, all government/household/firm forms, deposits, gifts, imports, non-unit rates) built and solved by the real code; identities are exactly zero on the Fraction solution of the emitted text. Topologies outside the spec language are not explored.", "3/C01"),
  'C04': ("market-clearing / allocation / pair identities from spec-declared participants on the exact re-solution; bookings through sector ledgers",
